@@ -64,6 +64,41 @@ would finish if left alone (`none` = never). -/
 def expected (deadlines : List (Option Nat)) (finish : Option Nat) : Expect :=
   expected' (shortest deadlines) finish
 
+/-! ### A caller that looks late
+
+The deadline counts from the moment the call was DISPATCHED ("once the shorter of … has elapsed"),
+not from the moment the caller first looks at its response future.  A caller that dispatches at
+time 0 and first looks at time `b` can only observe anything from `b` on, so "when" is never
+before `b`:
+
+* the call finishes by its deadline (`l ≤ m`, or no deadline): it is unaffected — the caller gets
+  the call's own result, at the later of `l` and `b`;
+* the call is still running when the deadline has passed AND the caller is looking
+  (`l > max m b`, or it never finishes): CANCELLED "Timeout expired", at the later of `m` and `b`
+  — in particular NOT at `b + m`;
+* the call finished after its deadline but before the caller looked (`m < l ≤ b`): nobody was
+  polling when the deadline passed, and by the time somebody looks both the result and the expired
+  deadline are there.  The caller cannot tell whether the cut-off happened "in time", and the
+  property does not say which of the two wins: EITHER outcome is acceptable, at `b`. -/
+
+/-- The later of two instants (naive). -/
+def later (a b : Nat) : Nat := if a ≤ b then b else a
+
+/-- The acceptable observations, with the shortest deadline `m` in hand; `b` = when the caller
+first polls. -/
+def lateExpected' (m finish : Option Nat) (b : Nat) : List Expect :=
+  match m, finish with
+  | none, none => [.pending]
+  | none, some l => [.finishes (later l b)]
+  | some m, none => [.cancelled (later m b)]
+  | some m, some l =>
+    if l ≤ m then [.finishes (later l b)]
+    else if later m b < l then [.cancelled (later m b)]
+    else [.finishes b, .cancelled b]
+
+def lateExpected (deadlines : List (Option Nat)) (finish : Option Nat) (b : Nat) : List Expect :=
+  lateExpected' (shortest deadlines) finish b
+
 /-- The status the property names: CANCELLED (code 1 in gRPC's statuscodes.md), "Timeout expired". -/
 def cancelledCode : Nat := 1
 def expiredText : Bytes := "Timeout expired".toUTF8.toList
